@@ -3,7 +3,7 @@
   imported (RV32I: NakenVerif.Riscv.Props / RoundTrip, namespace NakenVerif.Riscv):
     Arch.decode_encode, Arch.encode_decode, rv32i_encode_sound, rv32i_encode_sound_defined, rv32i_encode_len,
     rv32i_fixpoint_structured, table_spec_rows, table_spec_names, table_rows_known, table_rt_rows,
-    fence_bare_counterexample, fence_flags_fault_counterexample
+    rv32i_fence_sound, fence_encode
 -/
 import NakenVerif.Riscv.Props
 import NakenVerif.Riscv.RoundTrip
